@@ -49,13 +49,13 @@ ASSUMPTIONS = [
     "buffer only) and are not enumerated",
     "lattice A is dyadic (times multiples of 1/32, frequencies integers): box and interval arithmetic in the implementation is "
     "exact; lattice B (thorough) is generic and judged with the same declared tolerances",
-    "tolerances: range, <= 1 and == 0 exact; symmetric, self >= 1 - 1e-9, shift 1e-9; bbox_iou, time_only_iou 1e-12",
+    "tolerances: range, <= 1 and == 0 exact; symmetric, self >= 1 - 1e-9, shift 1e-9 (not judged for buffered kinds under the 2^-30 s buffer: the extent is then ~1e-7 of the coordinates' rounding); bbox_iou, time_only_iou 1e-12",
     "freq_disjoint_zero (exactly 0 when neither side is time-only and the buffered frequency extents are disjoint) is an extra "
     "sub-oracle implied by 'intersection over union'; it is not listed in DESIGN.md",
     "self-intersecting polygons are outside the quantifier; polygons in the pool are simple (triangle, rectangle with a hole)",
 ]
 
-TIME_BUFFERS = [0, 2.0 ** -7, 0.01, 0.5, 2.0]  # 2.0: a time buffer above 1 s (larger than the pooled geometries)
+TIME_BUFFERS = [0, 2.0 ** -30, 2.0 ** -7, 0.01, 0.5, 2.0]  # 2^-30 s (1 ns): extents far below any 'is it zero?' tolerance;  # 2.0: a time buffer above 1 s (larger than the pooled geometries)
 FREQ_BUFFERS = [0, 1, 100]
 SHIFTS = [0, 1, 2.5]
 OFFSET_B = (0.013, 77)
@@ -153,6 +153,11 @@ def geom_pool(tier):
                     c = offset_b(gtype, c)
                 assert gm.valid(gtype, c), (gtype, c)
                 pool.append({"type": gtype, "coordinates": c, "id": "%s%d" % (lat, idx)})
+    # a line that doubles back in time with a sharp turn at its latest point: its buffered time extent depends on how the corner
+    # is joined, so the affinity to time-only geometries tells whether the internal buffering is the public buffer_geometry
+    hook = [[1, 1000], [2, 1500], [1.2, 1550]]
+    assert gm.valid("LineString", hook)
+    pool.append({"type": "LineString", "coordinates": hook, "id": "hook"})
     _POOLS[tier] = pool
     return pool
 
@@ -410,7 +415,10 @@ def run_case(case):
 
         # ---- shift_invariant (1e-9), only when neither buffered geometry reaches t = 0 before the shift
         if dt != 0:
-            if base is None or base[0] != "ok" or base_reaches_zero:
+            if base is None or base[0] != "ok" or base_reaches_zero or (thin and 0 < tb < 2.0 ** -20):
+                # a nanosecond buffer makes the buffered extent ~1e-9 wide at coordinates of size ~1: moving the coordinates changes
+                # their rounding by ~1e-16, i.e. ~1e-7 of the extent, so a 1e-9 agreement is not a property of any double
+                # implementation there (the value itself is still judged by the other oracles)
                 out.vac("shift_invariant")
             else:
                 out.expect("shift_invariant", abs(fa - F(base[1])) <= TOL_SYM, [base[1], a], "|a(shifted) - a| <= 1e-9",
